@@ -211,7 +211,11 @@ class SimRaw(io.RawIOBase):
             if self._append:
                 flags |= os.O_APPEND
             pos = self._pos
-            self.fd = _real["os_open"]("/proc/self/fd/%d" % self.node.data.fd, flags)
+            if self.node.kind == "d":
+                # a directory opened for fsync-ing a rename: any real directory descriptor will do
+                self.fd = _real["os_open"]("/", os.O_RDONLY)
+            else:
+                self.fd = _real["os_open"]("/proc/self/fd/%d" % self.node.data.fd, flags)
             self.fs.fds[self.fd] = self
             self.pos = pos
         return self.fd
